@@ -145,8 +145,13 @@ func (vc *VC) execInstrs(b *ssa.BasicBlock, st *State) {
 					if !blockReaches(d.Block(), b) {
 						continue // registered on a path that does not lead to this return
 					}
-					// conditional defer: only supported for no-op callees
-					if !vc.isNoop(&d.Call) {
+					// conditional defer (registered in a loop or on one branch): no-op callees are skipped; an interface
+					// method whose contract has no precondition and whose effects are only scalar ghost records is
+					// over-approximated by forgetting those records (it may have been registered any number of times)
+					if vc.isNoop(&d.Call) {
+						continue
+					}
+					if !vc.havocDeferred(&d.Call, st) {
 						vc.fail("conditionally executed defer of a call with effects")
 					}
 					continue
@@ -1003,4 +1008,47 @@ func blockReaches(a, b *ssa.BasicBlock) bool {
 		}
 	}
 	return false
+}
+
+// havocDeferred over-approximates zero or more executions of a deferred interface call whose contract has no
+// precondition and modifies only scalar ghost variables.
+func (vc *VC) havocDeferred(c *ssa.CallCommon, st *State) bool {
+	if !c.IsInvoke() {
+		return false
+	}
+	m := c.Method
+	rt := m.Type().(*types.Signature).Recv().Type()
+	named, _ := rt.(*types.Named)
+	if named == nil {
+		if nn, ok := c.Value.Type().(*types.Named); ok {
+			named = nn
+		}
+	}
+	if named == nil || named.Obj().Pkg() == nil {
+		return false
+	}
+	key := "iface:" + named.Obj().Pkg().Path() + "." + named.Obj().Name() + "." + m.Name()
+	spec := vc.w.funcSpecs[key]
+	if spec == nil || len(spec.Requires) > 0 || spec.AliasOf != "" {
+		return false
+	}
+	var ghosts []*GhostDecl
+	for _, ml := range spec.Modifies {
+		id, ok := ml.(*EIdent)
+		if !ok {
+			return false
+		}
+		g := vc.w.ghosts[id.Name]
+		if g == nil || g.Key != "" {
+			return false
+		}
+		ghosts = append(ghosts, g)
+	}
+	env := &Env{vc: vc, cur: st, old: vc.entry, vars: map[string]SVal{}}
+	for _, g := range ghosts {
+		_, srt, _ := env.ghostSorts(g)
+		vc.setHeap(st, "GH."+g.Name, srt, vc.fresh("GH."+g.Name+".dfr", srt))
+	}
+	vc.noteTrusted("deferred " + named.Obj().Name() + "." + m.Name() + " calls registered in a loop: their recorded effects are forgotten (any number of calls)")
+	return true
 }
